@@ -9,6 +9,8 @@ mod sup;
 mod c01;
 mod c03;
 mod c04;
+mod c05;
+mod sched;
 mod projgen;
 mod c06;
 mod corpus;
@@ -40,6 +42,9 @@ fn main() {
     }
     common::install_panic_hook();
     let id = args[1].as_str();
+    if id == "sched" {
+        std::process::exit(c05::sched_main(&args[2..]));
+    }
     if id == "worker" {
         let space = args[2].clone();
         let code = sup::worker_main(&space, &|sp, idx| {
@@ -49,6 +54,10 @@ fn main() {
                 c14::worker(sp, idx)
             } else if sp.starts_with("c01") {
                 c01::worker(sp, idx)
+            } else if sp.starts_with("c05") {
+                c05::worker(sp, idx)
+            } else if sp.starts_with("c02") {
+                c19::worker_c02(sp, idx)
             } else if sp.starts_with("c19") {
                 c19::worker(sp, idx)
             } else {
@@ -63,8 +72,10 @@ fn main() {
     };
     let checks: Vec<(&str, fn(&Ctx) -> i32)> = vec![
         ("C01", c01::run),
+        ("C02", c19::run_c02),
         ("C03", c03::run),
         ("C04", c04::run),
+        ("C05", c05::run),
         ("C06", c06::run),
         ("C07", c07::run),
         ("C08", c08::run08),
